@@ -65,7 +65,7 @@ ASSUMPTIONS = [
     "the consistent initial state is defined in the model directly from the decomposition by the specification of RemoteIndices::rebuild (C04 proves that rebuild meets it); the harness uses the real rebuild and compares the state before the sync with the model as well",
     "every global index occurs at most once per index set; all beliefs agree with one decomposition; the neighbour relation is symmetric",
     "arrival orders are varied by seeded start delays (after fixes/C13_syncer_arrival_order_mixes_syncs.patch the syncer no longer probes MPI_ANY_SOURCE, so the PMPI scheduler has nothing to permute); order independence for all orders is the theorem order_irrelevant",
-    "the model describes the tree with fixes/C13_syncer_duplicate_remote_entry.patch, fixes/C13_syncer_index_added_twice.patch, fixes/C13_modifier_repair_pointers.patch and fixes/C13_syncer_arrival_order_mixes_syncs.patch applied",
+    "the model describes the tree with fixes/C13_syncer_duplicate_remote_entry.patch, fixes/C13_syncer_index_added_twice.patch, fixes/C13_modifier_repair_pointers.patch, fixes/C13_syncer_arrival_order_mixes_syncs.patch and fixes/C13_syncer_object_reusable.patch applied",
 ]
 TRUSTED = ["g++/libstdc++, ASan/UBSan, OpenMPI", "translator tr_c13.py", "harness/mpi_c13.cc (generator, executor, set-theoretic oracle) + harness/pmpi_sched.cc",
            "Driver/C13.lean parsing/printing and its construction of the pre-sync state from the op line"]
